@@ -8,6 +8,8 @@ import PvProofs.Lemmas.MdStoreOps
 namespace PvProofs.MdLemmas
 open PvModel.MdStore
 
+variable {B : Addr → Addr}
+
 /-- keep only the accepted branches of an unfolded handler -/
 local macro "ok_branches" hr:ident : tactic =>
   `(tactic| ((repeat' split at $hr:ident) <;> first | cases $hr:ident | skip))
@@ -15,7 +17,7 @@ local macro "ok_branches" hr:ident : tactic =>
 theorem hasScope_of_khas {st : State} {id : UUID} (h : khas (·.id) st.scopes id = true) :
     ∃ sc ∈ st.scopes, sc.id = id := khas_iff.mp h
 
-theorem hasScope_of_vo {st : State} (h : Inv st) {id : UUID}
+theorem hasScope_of_vo {st : State} (h : Inv B st) {id : UUID}
     (hv : (getScopeValueOwner st id).isNone = false) : ∃ sc ∈ st.scopes, sc.id = id := by
   simp only [getScopeValueOwner, Option.isNone_map] at hv
   cases hg : kget (·.1) st.valueOwners id with
@@ -27,60 +29,60 @@ theorem hasScope_of_vo {st : State} (h : Inv st) {id : UUID}
 
 /-! ### `Inv` is preserved by every operation -/
 
-theorem writeScopeSpecification_inv {st st' : State} (h : Inv st) {sp : ScopeSpec}
-    (hr : writeScopeSpecification st sp = .ok st') : Inv st' := by
+theorem writeScopeSpecification_inv {st st' : State} (h : Inv B st) {sp : ScopeSpec}
+    (hr : writeScopeSpecification B st sp = .ok st') : Inv B st' := by
   simp only [writeScopeSpecification] at hr
   ok_branches hr
   exact setScopeSpecification_inv h sp
 
-theorem deleteScopeSpecification_inv {st st' : State} (h : Inv st) {id : UUID}
-    (hr : deleteScopeSpecification st id = .ok st') : Inv st' := by
+theorem deleteScopeSpecification_inv {st st' : State} (h : Inv B st) {id : UUID}
+    (hr : deleteScopeSpecification B st id = .ok st') : Inv B st' := by
   simp only [deleteScopeSpecification] at hr
   split at hr
   · cases hr
   · exact removeScopeSpecification_inv h id hr
 
-theorem writeContractSpecification_inv {st st' : State} (h : Inv st) {sp : ContractSpec}
-    (hr : writeContractSpecification st sp = .ok st') : Inv st' := by
+theorem writeContractSpecification_inv {st st' : State} (h : Inv B st) {sp : ContractSpec}
+    (hr : writeContractSpecification B st sp = .ok st') : Inv B st' := by
   simp only [writeContractSpecification] at hr
   ok_branches hr
   exact setContractSpecification_inv h sp
 
-theorem deleteContractSpecification_inv {st st' : State} (h : Inv st) {id : UUID}
-    (hr : deleteContractSpecification st id = .ok st') : Inv st' := by
+theorem deleteContractSpecification_inv {st st' : State} (h : Inv B st) {id : UUID}
+    (hr : deleteContractSpecification B st id = .ok st') : Inv B st' := by
   simp only [deleteContractSpecification] at hr
   split at hr
   · cases hr
   · exact removeContractSpecification_inv
       (recordSpecs_inv h _ (nodup_filter (key := fun r : RecordSpec => r.id) _ h.keys.2.2.2.2.2.1)) id hr
 
-theorem addContractSpecToScopeSpec_inv {st st' : State} (h : Inv st) {c p : UUID}
-    (hr : addContractSpecToScopeSpec st c p = .ok st') : Inv st' := by
+theorem addContractSpecToScopeSpec_inv {st st' : State} (h : Inv B st) {c p : UUID}
+    (hr : addContractSpecToScopeSpec B st c p = .ok st') : Inv B st' := by
   simp only [addContractSpecToScopeSpec] at hr
   ok_branches hr
   exact setScopeSpecification_inv h _
 
-theorem deleteContractSpecFromScopeSpec_inv {st st' : State} (h : Inv st) {c p : UUID}
-    (hr : deleteContractSpecFromScopeSpec st c p = .ok st') : Inv st' := by
+theorem deleteContractSpecFromScopeSpec_inv {st st' : State} (h : Inv B st) {c p : UUID}
+    (hr : deleteContractSpecFromScopeSpec B st c p = .ok st') : Inv B st' := by
   simp only [deleteContractSpecFromScopeSpec] at hr
   ok_branches hr
   exact setScopeSpecification_inv h _
 
-theorem writeRecordSpecification_inv {st st' : State} (h : Inv st) (H : String → NameKey) {c : UUID} {n : String}
-    (hr : writeRecordSpecification H st c n = .ok st') : Inv st' := by
+theorem writeRecordSpecification_inv {st st' : State} (h : Inv B st) (H : String → NameKey) {c : UUID} {n : String}
+    (hr : writeRecordSpecification H st c n = .ok st') : Inv B st' := by
   simp only [writeRecordSpecification] at hr
   ok_branches hr
   all_goals
     exact recordSpecs_inv h _ (nodup_kput (key := fun r : RecordSpec => r.id) _ h.keys.2.2.2.2.2.1)
 
-theorem deleteRecordSpecification_inv {st st' : State} (h : Inv st) (H : String → NameKey) {c : UUID} {n : String}
-    (hr : deleteRecordSpecification H st c n = .ok st') : Inv st' := by
+theorem deleteRecordSpecification_inv {st st' : State} (h : Inv B st) (H : String → NameKey) {c : UUID} {n : String}
+    (hr : deleteRecordSpecification H st c n = .ok st') : Inv B st' := by
   simp only [deleteRecordSpecification, removeRecordSpecification] at hr
   ok_branches hr
   exact recordSpecs_inv h _ (nodup_kdel (key := fun r : RecordSpec => r.id) _ h.keys.2.2.2.2.2.1)
 
-theorem writeScope_inv {st st' : State} (h : Inv st) {sc : Scope} {vo : String} {m : Nat}
-    (hr : writeScope st sc vo m = .ok st') : Inv st' := by
+theorem writeScope_inv {st st' : State} (h : Inv B st) {sc : Scope} {vo : String} {m : Nat}
+    (hr : writeScope B st sc vo m = .ok st') : Inv B st' := by
   simp only [writeScope] at hr
   ok_branches hr
   all_goals first
@@ -88,9 +90,9 @@ theorem writeScope_inv {st st' : State} (h : Inv st) {sc : Scope} {vo : String} 
     | exact setScope_inv h sc vo
 
 theorem deleteScopeWith_inv (rm : State → UUID → State)
-    (hrm : ∀ st id sc, PvModel.MdStore.Inv st → kget (·.id) st.scopes id = some sc →
-      PvModel.MdStore.Inv (removeNetAssetValues (rm st id) id))
-    {st st' : State} (h : Inv st) {id : UUID} (hr : deleteScopeWith rm st id = .ok st') : Inv st' := by
+    (hrm : ∀ st id sc, PvModel.MdStore.Inv B st → kget (·.id) st.scopes id = some sc →
+      PvModel.MdStore.Inv B (removeNetAssetValues (rm st id) id))
+    {st st' : State} (h : Inv B st) {id : UUID} (hr : deleteScopeWith rm st id = .ok st') : Inv B st' := by
   simp only [deleteScopeWith] at hr
   split at hr
   · cases hr
@@ -100,40 +102,40 @@ theorem deleteScopeWith_inv (rm : State → UUID → State)
     obtain ⟨sc, hsc⟩ := Option.isSome_iff_exists.mp (kget_isSome_iff.mpr (khas_iff.mp hk'))
     exact hrm st id sc h hsc
 
-theorem addScopeDataAccess_inv {st st' : State} (h : Inv st) {id : UUID} {a : List Addr}
-    (hr : addScopeDataAccess st id a = .ok st') : Inv st' := by
+theorem addScopeDataAccess_inv {st st' : State} (h : Inv B st) {id : UUID} {a : List Addr}
+    (hr : addScopeDataAccess B st id a = .ok st') : Inv B st' := by
   simp only [addScopeDataAccess] at hr
   ok_branches hr
   exact setScope_inv h _ _
 
-theorem deleteScopeDataAccess_inv {st st' : State} (h : Inv st) {id : UUID} {a : List Addr}
-    (hr : deleteScopeDataAccess st id a = .ok st') : Inv st' := by
+theorem deleteScopeDataAccess_inv {st st' : State} (h : Inv B st) {id : UUID} {a : List Addr}
+    (hr : deleteScopeDataAccess B st id a = .ok st') : Inv B st' := by
   simp only [deleteScopeDataAccess] at hr
   ok_branches hr
   exact setScope_inv h _ _
 
-theorem addScopeOwner_inv {st st' : State} (h : Inv st) {id : UUID} {a : List Addr}
-    (hr : addScopeOwner st id a = .ok st') : Inv st' := by
+theorem addScopeOwner_inv {st st' : State} (h : Inv B st) {id : UUID} {a : List Addr}
+    (hr : addScopeOwner B st id a = .ok st') : Inv B st' := by
   simp only [addScopeOwner] at hr
   ok_branches hr
   exact setScope_inv h _ _
 
-theorem deleteScopeOwner_inv {st st' : State} (h : Inv st) {id : UUID} {a : List Addr}
-    (hr : deleteScopeOwner st id a = .ok st') : Inv st' := by
+theorem deleteScopeOwner_inv {st st' : State} (h : Inv B st) {id : UUID} {a : List Addr}
+    (hr : deleteScopeOwner B st id a = .ok st') : Inv B st' := by
   simp only [deleteScopeOwner] at hr
   ok_branches hr
   exact setScope_inv h _ _
 
-theorem updateValueOwners_inv {st st' : State} (h : Inv st) {ids : List UUID} {a : Addr}
-    (hr : updateValueOwners st ids a = .ok st') : Inv st' := by
+theorem updateValueOwners_inv {st st' : State} (h : Inv B st) {ids : List UUID} {a : Addr}
+    (hr : updateValueOwners B st ids a = .ok st') : Inv B st' := by
   simp only [updateValueOwners] at hr
   ok_branches hr
   rename_i hnone _
   simp only [List.any_eq_true, not_exists, not_and, Bool.not_eq_true] at hnone
-  exact setScopeValueOwners_inv h ids a (fun id hid => hasScope_of_vo h (hnone id hid))
+  exact setScopeValueOwners_inv h ids (B a) (fun id hid => hasScope_of_vo h (hnone id hid))
 
-theorem migrateValueOwner_inv {st st' : State} (h : Inv st) {a b : Addr}
-    (hr : migrateValueOwner st a b = .ok st') : Inv st' := by
+theorem migrateValueOwner_inv {st st' : State} (h : Inv B st) {a b : Addr}
+    (hr : migrateValueOwner B st a b = .ok st') : Inv B st' := by
   simp only [migrateValueOwner] at hr
   ok_branches hr
   apply setScopeValueOwners_inv h
@@ -141,14 +143,14 @@ theorem migrateValueOwner_inv {st st' : State} (h : Inv st) {a b : Addr}
   obtain ⟨p, hp, rfl⟩ := List.mem_map.mp hid
   exact h.voScope p (List.mem_filter.mp hp).1
 
-theorem writeSession_inv {st st' : State} (h : Inv st) {x : Session}
-    (hr : writeSession st x = .ok st') : Inv st' := by
+theorem writeSession_inv {st st' : State} (h : Inv B st) {x : Session}
+    (hr : writeSession st x = .ok st') : Inv B st' := by
   simp only [writeSession] at hr
   ok_branches hr
   all_goals exact setSession_inv h x
 
-theorem writeRecord_inv {st st' : State} (h : Inv st) (H : String → NameKey) {sid : SessionId} {n : String}
-    {g : Option RecSpecId} (hr : writeRecord H st sid n g = .ok st') : Inv st' := by
+theorem writeRecord_inv {st st' : State} (h : Inv B st) (H : String → NameKey) {sid : SessionId} {n : String}
+    {g : Option RecSpecId} (hr : writeRecord H st sid n g = .ok st') : Inv B st' := by
   simp only [writeRecord] at hr
   ok_branches hr
   all_goals
@@ -163,14 +165,14 @@ theorem writeRecord_inv {st st' : State} (h : Inv st) (H : String → NameKey) {
       | exact removeSession_inv (setRecord_inv h _ hsess hscope rfl) _
       | exact setRecord_inv h _ hsess hscope rfl
 
-theorem deleteRecord_inv {st st' : State} (h : Inv st) (H : String → NameKey) {s : UUID} {n : String}
-    (hr : deleteRecord H st s n = .ok st') : Inv st' := by
+theorem deleteRecord_inv {st st' : State} (h : Inv B st) (H : String → NameKey) {s : UUID} {n : String}
+    (hr : deleteRecord H st s n = .ok st') : Inv B st' := by
   simp only [deleteRecord] at hr
   ok_branches hr
   exact removeRecord_inv h _
 
-theorem addNetAssetValues_inv {st st' : State} (h : Inv st) {id : UUID}
-    (hr : addNetAssetValues st id = .ok st') : Inv st' := by
+theorem addNetAssetValues_inv {st st' : State} (h : Inv B st) {id : UUID}
+    (hr : addNetAssetValues st id = .ok st') : Inv B st' := by
   simp only [addNetAssetValues] at hr
   split at hr
   · cases hr
@@ -181,10 +183,10 @@ theorem addNetAssetValues_inv {st st' : State} (h : Inv st) {id : UUID}
 
 /-- every operation preserves `Inv`, for any `RemoveScope` whose `DeleteScope` does -/
 theorem applyOpWith_inv (rm : State → UUID → State)
-    (hrm : ∀ st id sc, PvModel.MdStore.Inv st → kget (·.id) st.scopes id = some sc →
-      PvModel.MdStore.Inv (removeNetAssetValues (rm st id) id))
-    (H : String → NameKey) {st st' : State} (h : Inv st) (op : Op)
-    (hr : applyOpWith rm H st op = .ok st') : Inv st' := by
+    (hrm : ∀ st id sc, PvModel.MdStore.Inv B st → kget (·.id) st.scopes id = some sc →
+      PvModel.MdStore.Inv B (removeNetAssetValues (rm st id) id))
+    (H : String → NameKey) {st st' : State} (h : Inv B st) (op : Op)
+    (hr : applyOpWith B rm H st op = .ok st') : Inv B st' := by
   cases op <;> simp only [applyOpWith] at hr
   case writeScopeSpec => exact writeScopeSpecification_inv h hr
   case deleteScopeSpec => exact deleteScopeSpecification_inv h hr
@@ -211,10 +213,10 @@ theorem applyOpWith_inv (rm : State → UUID → State)
 /-! ### `SessionsHaveScope` is preserved by every operation, given a `RemoveScope` that preserves it -/
 
 theorem applyOpWith_shs (rm : State → UUID → State)
-    (hrm : ∀ st id sc, PvModel.MdStore.Inv st → SessionsHaveScope st → kget (·.id) st.scopes id = some sc →
+    (hrm : ∀ st id sc, PvModel.MdStore.Inv B st → SessionsHaveScope st → kget (·.id) st.scopes id = some sc →
       SessionsHaveScope (removeNetAssetValues (rm st id) id))
-    (H : String → NameKey) {st st' : State} (h : PvModel.MdStore.Inv st) (hs : SessionsHaveScope st) (op : Op)
-    (hr : applyOpWith rm H st op = .ok st') : SessionsHaveScope st' := by
+    (H : String → NameKey) {st st' : State} (h : PvModel.MdStore.Inv B st) (hs : SessionsHaveScope st) (op : Op)
+    (hr : applyOpWith B rm H st op = .ok st') : SessionsHaveScope st' := by
   cases op <;> simp only [applyOpWith] at hr
   case writeScopeSpec =>
     simp only [writeScopeSpecification] at hr
@@ -282,7 +284,7 @@ theorem applyOpWith_shs (rm : State → UUID → State)
   case updateValueOwners ids a =>
     simp only [updateValueOwners] at hr
     ok_branches hr
-    obtain ⟨h1, h2⟩ := setScopeValueOwners_frame st ids a
+    obtain ⟨h1, h2⟩ := setScopeValueOwners_frame st ids (B a)
     intro x hx
     rw [h1] at hx
     rw [h2]
@@ -291,7 +293,7 @@ theorem applyOpWith_shs (rm : State → UUID → State)
     simp only [migrateValueOwner] at hr
     ok_branches hr
     obtain ⟨h1, h2⟩ := setScopeValueOwners_frame st
-      ((st.valueOwners.filter (fun p => p.2 = a)).map (·.1)) b
+      ((st.valueOwners.filter (fun p => p.2 = B a)).map (·.1)) (B b)
     intro x hx
     rw [h1] at hx
     rw [h2]
@@ -320,9 +322,9 @@ theorem applyOpWith_shs (rm : State → UUID → State)
 
 /-! ### the current `removeScope` (with the repair ab8bb51a7): record walk, then the remaining sessions -/
 
-theorem filterSessions_inv {s : State} (h : PvModel.MdStore.Inv s) (id : UUID)
+theorem filterSessions_inv {s : State} (h : PvModel.MdStore.Inv B s) (id : UUID)
     (hno : ∀ r ∈ s.records, r.id.scope ≠ id) :
-    PvModel.MdStore.Inv { s with sessions := s.sessions.filter (fun x => x.id.scope ≠ id) } :=
+    PvModel.MdStore.Inv B { s with sessions := s.sessions.filter (fun x => x.id.scope ≠ id) } :=
   { h with
     keys := by
       obtain ⟨h1, h2, h3, h4, h5, h6, h7⟩ := h.keys
@@ -334,15 +336,15 @@ theorem filterSessions_inv {s : State} (h : PvModel.MdStore.Inv s) (id : UUID)
       have : y.id.scope ≠ id := by rw [hyr, h.recInScope r hr]; exact hno r hr
       simpa using this }
 
-theorem deleteScope_spec {st : State} (h : PvModel.MdStore.Inv st) (id : UUID) (sc : Scope)
+theorem deleteScope_spec {st : State} (h : PvModel.MdStore.Inv B st) (id : UUID) (sc : Scope)
     (hsc : kget (·.id) st.scopes id = some sc) :
-    PvModel.MdStore.Inv (removeNetAssetValues (removeScope st id) id) ∧
-    ScopeGone (removeNetAssetValues (removeScope st id) id) id ∧
-    (SessionsHaveScope st → SessionsHaveScope (removeNetAssetValues (removeScope st id) id)) := by
+    PvModel.MdStore.Inv B (removeNetAssetValues (removeScope B st id) id) ∧
+    ScopeGone (removeNetAssetValues (removeScope B st id) id) id ∧
+    (SessionsHaveScope st → SessionsHaveScope (removeNetAssetValues (removeScope B st id) id)) := by
   obtain ⟨hinv, hgone, hsess, hrec, hscopes⟩ := deleteScopePreFix_spec h id sc hsc
   have w := afterWalk_spec h id
   rw [removeScope_eq hsc]
-  have hno : ∀ r ∈ (removeNetAssetValues (removeScopePreFix st id) id).records, r.id.scope ≠ id := hgone.2.1
+  have hno : ∀ r ∈ (removeNetAssetValues (removeScopePreFix B st id) id).records, r.id.scope ≠ id := hgone.2.1
   have hI := filterSessions_inv hinv id hno
   refine ⟨hI, ⟨?_, ?_⟩, ?_⟩
   · obtain ⟨g1, g2, g3, g4, g5, g6⟩ := hgone
@@ -354,7 +356,7 @@ theorem deleteScope_spec {st : State} (h : PvModel.MdStore.Inv st) (id : UUID) (
     obtain ⟨hx1, hx2⟩ := List.mem_filter.mp hx
     have hx2' : x.id.scope ≠ id := by simpa using hx2
     have hx3 : x ∈ st.sessions := by
-      have : x ∈ (removeNetAssetValues (removeScopePreFix st id) id).sessions := hx1
+      have : x ∈ (removeNetAssetValues (removeScopePreFix B st id) id).sessions := hx1
       rw [hsess] at this
       exact w.sessSub x this
     obtain ⟨y, hy, hyr⟩ := hs x hx3
